@@ -99,7 +99,7 @@ fn c01_skip_length_limit() {
     kani::cover!(total == 256, "one octet too long");
 }
 
-// @tier: thorough
+// @tier: experimental
 // @timeout: 7200
 // @mem: 40
 // @funcs: Opt::from_octets, Opt::check_slice, Opt::iter::<AllOptData>, OptIter::{next,next_step}, every EDNS option's parse_option (NSID, DAU/DHU/N3U, Expire, TcpKeepalive, Padding, ClientSubnet, Cookie, Chain, KeyTag, ExtendedError, unknown)
